@@ -417,6 +417,17 @@ void ares_event_thread_destroy(ares_channel_t *channel)
   channel->notify_pending_write_cb_data = NULL;
 }
 
+void ares_event_thread_wake_channel(const ares_channel_t *channel)
+{
+  /* Only if the event thread is what is monitoring this channel's sockets */
+  if (channel == NULL ||
+      channel->sock_state_cb != ares_event_thread_sockstate_cb) {
+    return;
+  }
+
+  ares_event_thread_wake(channel->sock_state_cb_data);
+}
+
 static const ares_event_sys_t *ares_event_fetch_sys(ares_evsys_t evsys)
 {
   switch (evsys) {
@@ -560,6 +571,11 @@ ares_status_t ares_event_thread_init(ares_channel_t *channel)
 }
 
 void ares_event_thread_destroy(ares_channel_t *channel)
+{
+  (void)channel;
+}
+
+void ares_event_thread_wake_channel(const ares_channel_t *channel)
 {
   (void)channel;
 }
